@@ -787,12 +787,19 @@ def expect_refused(ctx, case, facts0, short, field, data, record) -> None:
         ctx.violate("changed-guard-refused", dict(facts0, module=short, guard=field), case)
 
 
+OTHER_IDS = ("another_record", C.RECORD_ID + "0", C.RECORD_ID[:-1])
+
+
 def fresh(case, record_id=C.RECORD_ID):
     return C.build_record(case, record_id)
 
 
 def check_guards(ctx, case, saved: dict, record_with_regions, facts0) -> None:
-    other_id = "another_record"
+    # an unrelated identifier, one that the saved identifier is a proper prefix of, and a proper prefix of the saved one
+    # (contig_1 / contig_10: equality of identifiers is what the guards have to test, not containment)
+    other_id = OTHER_IDS[ctx.evaluations % len(OTHER_IDS)]
+    ctx.count("shape:other-record-id:" + ("unrelated" if other_id == "another_record" else
+                                          "extends-saved" if other_id.startswith(C.RECORD_ID) else "prefix-of-saved"))
 
     def data_of(short):
         return AJ.loads(saved[short])
